@@ -11,6 +11,7 @@ import io
 import os
 from types import SimpleNamespace
 
+from sim import invivo
 from sim.core import canon_json, digest_hex, h64, scratch_root
 
 PID = "C17"
@@ -30,12 +31,12 @@ ASSUMPTIONS = [
     "combined return: must contain the union of returned flags and may additionally contain SUCCESS when some handler returned non-zero",
     "in population 'prod' event kinds whose DEFAULT handlers are registered for every language are not notified with probe data (they would run lian code on it); they are covered by population 'bare' and by the in-vivo monitor of C15",
 ]
-PROBES = ["unprocessed_set_out", "lang_filtered", "any_lang_match", "blocked", "data_chained", "unprocessed_kept_data", "unknown_event",
+PROBES = ["invivo_notifications", "invivo_handlers_invoked", "invivo_multi_handler_notifications", "unprocessed_set_out", "lang_filtered", "any_lang_match", "blocked", "data_chained", "unprocessed_kept_data", "unknown_event",
           "flags_multi", "str_lang", "set_lang", "substring_lang", "register_list", "plugin_loaded", "prod_default_table",
           "no_handler_matched"]
 TIERS = {
-    "quick": {"runs": 30000, "budget_s": 120, "chunk": 750, "selftest": 200, "per_run_timeout": 60},
-    "thorough": {"runs": 0, "budget_s": 900, "chunk": 4000, "selftest": 1000, "per_run_timeout": 60},
+    "quick": {"runs": 30000, "budget_s": 180, "chunk": 500, "selftest": 200, "per_run_timeout": 300},
+    "thorough": {"runs": 0, "budget_s": 900, "chunk": 2000, "selftest": 1000, "per_run_timeout": 300},
 }
 
 LANGS = ["sim", "simA", "simAB", "zz"]
@@ -52,6 +53,7 @@ _PLUGIN_SPEC = None   # set right before constructing a 'plugin' manager
 
 def setup_worker():
     global _em_mod, _EventData, _EventHandler, _EVENT_KINDS, _plugin_path
+    invivo.worker_setup()
     import lian.events.event_manager as em
     from lian.events.handler_template import EventData, EventHandler
     _em_mod, _EventData, _EventHandler = em, EventData, EventHandler
@@ -83,7 +85,12 @@ def plugin_register(em):
 
 # ----------------------------------------------------------------------------- generator
 
+P_INVIVO = {"quick": 0.0012, "thorough": 0.002}
+
+
 def gen_knobs(rng, tier):
+    if rng.random() < P_INVIVO.get(tier, 0.001):
+        return {"population": "invivo"}
     return {
         "population": rng.choice(["prod", "bare", "bare", "plugin"]),
         "n_events": rng.choice([1, 1, 2, 3]),
@@ -127,6 +134,8 @@ def _gen_flags(rng, k):
 
 
 def generate(rng, k):
+    if k["population"] == "invivo":
+        return invivo.gen_invivo_ops(rng)
     ops = []
     events = [f"E{p}" for p in k["event_picks"][:k["n_events"]]]   # resolved to real kinds by the executor
     hid = 0
@@ -200,9 +209,32 @@ def _model_langs(spec):
     return list(spec["v"])
 
 
+def execute_invivo(trace):
+    """the default registration table (plus the extern system's late registration) under the real pipeline's notifications."""
+    out, rep = invivo.run_ops(trace["ops"])
+    st = rep.get("stats", {})
+    probes = {}
+    if st.get("c17_notifications"):
+        probes["invivo_notifications"] = st["c17_notifications"]
+    if st.get("c17_handlers_invoked"):
+        probes["invivo_handlers_invoked"] = st["c17_handlers_invoked"]
+    if st.get("c17_multi_handler_notifications"):
+        probes["invivo_multi_handler_notifications"] = st["c17_multi_handler_notifications"]
+    violation = None
+    vs = rep.get("c17", [])
+    if vs:
+        violation = {"step": len(trace["ops"]) - 1, "cls": "invivo:" + vs[0]["cls"], "detail": dict(vs[0], count=len(vs), run_status=out.get("status"))}
+    log = [out.get("status"), out.get("detail", ""), st.get("c17_notifications"), st.get("c17_handlers_invoked"), [v["cls"] for v in vs]]
+    return {"violation": violation, "probes": probes, "states": set(), "trans": set(), "steps": st.get("c17_notifications", 0),
+            "log": digest_hex(log), "extra": {"invivo_none_returns": st.get("c17_none_returns", 0),
+                                              "invivo_monitor_errors": st.get("c17_monitor_errors", 0)}}
+
+
 def execute(trace):
     k = trace["knobs"]
     pop = k["population"]
+    if pop == "invivo":
+        return execute_invivo(trace)
     probes = {}
     states, trans = set(), set()
     log = []
@@ -428,6 +460,8 @@ def execute(trace):
 # ----------------------------------------------------------------------------- signature / simplification
 
 def signature(trace, violation):
+    if violation["cls"].startswith("invivo:"):
+        return f"{violation['cls']}:event{violation['detail'].get('event')}"
     nr = sum(1 if op["op"] == "register" else len(op["items"]) for op in trace["ops"] if op["op"] != "notify")
     nn = sum(1 for op in trace["ops"] if op["op"] == "notify")
     return f"{violation['cls']}:{nr}reg:{nn}notify"
@@ -435,6 +469,8 @@ def signature(trace, violation):
 
 def simplify(trace):
     ops = trace["ops"]
+    if trace["knobs"]["population"] == "invivo":
+        return
     # population: prefer 'bare'
     if trace["knobs"]["population"] != "bare":
         yield dict(trace, knobs=dict(trace["knobs"], population="bare"))
